@@ -31,6 +31,7 @@ var (
 	verifSmall atomic.Int64 // iterations over single-group maps (order = rotation by entryOffset&7)
 	verifLarge atomic.Int64 // iterations over table-backed maps
 	verifTrace [VerifTraceLen]uint32
+	verifHook  func() // called (if set) inside Iter.Init of a deviating iteration: records the call site
 )
 
 func verifLog2(x uint64) uint32 {
@@ -66,6 +67,9 @@ func verifIterOffsets(m *Map) (entryOffset, dirOffset uint64) {
 	}
 	for i := range verifK {
 		if verifK[i].Load() == n+1 {
+			if verifHook != nil {
+				verifHook()
+			}
 			return verifE[i].Load(), verifD[i].Load()
 		}
 	}
@@ -94,6 +98,9 @@ func VerifSet(slot int, k int64, e, d uint64) {
 	verifD[slot].Store(d)
 	verifK[slot].Store(k + 1)
 }
+
+// VerifSetHook installs the function called from Iter.Init of every deviating iteration.
+func VerifSetHook(f func()) { verifHook = f }
 
 // VerifPassthrough(true) restores the unpatched behaviour (random offsets) while still counting.
 func VerifPassthrough(on bool) {
